@@ -139,6 +139,28 @@ pub fn plan_names(op: &Arc<dyn PhysicalOperator>, out: &mut Vec<String>) {
     }
 }
 
+pub fn logical_json(p: &query_engine::planner::LogicalPlan) -> Value {
+    use query_engine::planner::LogicalPlan as L;
+    let kids: Vec<Value> = p.children().iter().map(|c| logical_json(c)).collect();
+    let mut v = match p {
+        L::Scan(s) => json!({"op": "Scan", "table": s.table_name, "filter": s.filter.as_ref().map(|f| f.to_string())}),
+        L::Filter(f) => json!({"op": "Filter", "predicate": f.predicate.to_string()}),
+        L::Join(j) => json!({"op": "Join", "join_type": format!("{:?}", j.join_type),
+            "on": j.on.iter().map(|(l, r)| json!([l.to_string(), r.to_string()])).collect::<Vec<_>>(),
+            "filter": j.filter.as_ref().map(|f| f.to_string())}),
+        L::Project(_) => json!({"op": "Project"}),
+        L::Aggregate(_) => json!({"op": "Aggregate"}),
+        L::Sort(_) => json!({"op": "Sort"}),
+        L::Limit(_) => json!({"op": "Limit"}),
+        L::Distinct(_) => json!({"op": "Distinct"}),
+        L::Union(_) => json!({"op": "Union"}),
+        L::SubqueryAlias(a) => json!({"op": "SubqueryAlias", "alias": a.alias}),
+        other => json!({"op": format!("{other:?}").split(['(', ' ', '{']).next().unwrap_or("?").to_string()}),
+    };
+    v["children"] = json!(kids);
+    v
+}
+
 pub fn make_planner(ctx: &ExecutionContext) -> PhysicalPlanner {
     let mut planner = PhysicalPlanner::with_config(ctx.memory_pool().clone(), ctx.config().clone());
     for n in ctx.table_names() {
@@ -456,6 +478,18 @@ fn main() {
                         Ok(_) => json!({"ok": true}),
                         Err(e) => err_json(&e),
                     },
+                    None => json!({"ok": false, "err": "Driver", "msg": "no db"}),
+                },
+                "optplan" => match dbs.get(&dbname) {
+                    // the optimized (or bound) LOGICAL plan as a JSON tree: joins with type / on / filter, scans, filters (C32)
+                    Some(db) => {
+                        let sql = req["sql"].as_str().unwrap_or("");
+                        let r = if req["bound"].as_bool().unwrap_or(false) { db.ctx.logical_plan(sql) } else { db.ctx.optimized_plan(sql) };
+                        match r {
+                            Ok(p) => json!({"ok": true, "plan": logical_json(&p)}),
+                            Err(e) => err_json(&e),
+                        }
+                    }
                     None => json!({"ok": false, "err": "Driver", "msg": "no db"}),
                 },
                 "sched" => match dbs.get(&dbname) {
